@@ -9,7 +9,12 @@ instructions GET, MEM, UPDATE, GET_AND_UPDATE (pytezos.michelson.instructions.st
     dictionary, is exactly the reference dictionary; action is `alloc` (with the key/value types) for a big_map
     without on-chain id and `update` with the on-chain id otherwise;
   * every diff entry's key_hash is base58 `expr` of blake2b-256 of PACK(key), recomputed independently
-    (oracle validated against 94 recorded (key, key_hash) pairs of tests/contract_tests).
+    (oracle validated against 94 recorded (key, key_hash) pairs of tests/contract_tests);
+  * the emitted diff merged back by `BigMapType.merge_lazy_diff` gives local entries / removed keys that denote the same
+    dictionary.
+Inputs (see bounded/C15_hist.py): nat values and, for two key universes, string / list values including the falsy "" and {}
+(literal, on-chain and written); a falsy key; contexts that hold another registered on-chain big_map; big_maps copied from a
+parameter (`copy` diffs); operands that are DUPlicates.
 Helper: bounded/C15_hist.py.
 """
 from __future__ import annotations
@@ -59,8 +64,9 @@ def run_R(ck):
                                                        UpdateInstruction)
     from pytezos.michelson.types.big_map import BigMapType
     from vlib.runner import REPO
-    for f in (BigMapType.get, BigMapType.update, BigMapType.aggregate_lazy_diff, ExecutionContext.get_big_map_value,
-              ExecutionContext.get_big_map_diff):
+    for f in (BigMapType.get, BigMapType.update, BigMapType.aggregate_lazy_diff, BigMapType.merge_lazy_diff, BigMapType.duplicate,
+              BigMapType.attach_context, ExecutionContext.get_big_map_value, ExecutionContext.get_big_map_diff,
+              ExecutionContext.register_big_map, ExecutionContext.get_tmp_big_map_id):
         ck.function(f)
     for c in (GetInstruction, MemInstruction, UpdateInstruction, GetAndUpdateInstruction):
         ck.function(c.execute, name=f'pytezos.michelson.instructions.struct:{c.__name__}.execute')
@@ -77,10 +83,20 @@ def run_R(ck):
               'mutates a big_map, so the object reached by a history is reused for its extensions')
     thorough = ck.thorough()
     plan = _plan(thorough)
-    ck.bound('C15_history_length', {'quick': 'all histories <= 3 (3 key types x 16 big_maps); <= 2 for the 4 comb key types x 16 big_maps (<= 3 for the 4-comb on 3); <= 4 for string keys on 3 big_maps',
-                                    'thorough': 'all histories <= 4 (3 key types x 16 big_maps), <= 3 (6 more key types incl. the 4 comb key types; <= 4 for the 4-comb on 3 big_maps), <= 5 for string keys on 4 big_maps'}[ck.tier])
+    nc = len(H.configs())
+    ck.bound('C15_history_length', {'quick': f'all histories <= 3 (3 key types x {nc} big_maps); <= 2 for the 4 comb key types x {nc} big_maps (<= 3 for the 4-comb on 3); <= 4 for string keys on 3 big_maps',
+                                    'thorough': f'all histories <= 4 (3 key types x {nc} big_maps), <= 3 (6 more key types incl. the 4 comb key types; <= 4 for the 4-comb on 3 big_maps), <= 5 for string keys on 4 big_maps'}[ck.tier])
     ck.bound('C15_operations', '18 = {GET, MEM, UPDATE Some, UPDATE None, GET_AND_UPDATE Some, GET_AND_UPDATE None} x 3 keys; every write stores a new value')
-    ck.bound('C15_big_maps', 'fresh (EMPTY_BIG_MAP); on-chain id with each of the 8 subsets of the 3 keys on chain; literal-initialised with each of the 7 non-empty subsets')
+    ck.bound('C15_big_maps', 'fresh (EMPTY_BIG_MAP) on a pristine context and on one that holds another on-chain big_map (id 1, binding every key); '
+                             'on-chain id with each of the 8 subsets of the 3 keys on chain; literal-initialised with each of the 7 non-empty subsets; '
+                             'copied from a parameter (keys 0 and 2 on chain); every operand a DUPlicate (2 configs)')
+    ck.bound('C15_value_types', {'default': 'nat', **{u: f'{vt} (falsy values "" / {{}} as literal, on-chain and written values)' for u, vt in H.VAL_OF.items()}})
+    if not H.CANDIDATE_DEFECT_MERGE_EMPTY_SEQUENCE:
+        ck.note('C15-R: the merge_lazy_diff clause is not evaluated on diffs that write an EMPTY SEQUENCE value (candidate defect: '
+                'merge_lazy_diff takes `value: []` for a removal); flag bounded.C15_hist.CANDIDATE_DEFECT_MERGE_EMPTY_SEQUENCE')
+    if not H.CANDIDATE_DEFECT_COPY_WITHOUT_SOURCE:
+        ck.note('C15-R: the `source` field of copy diffs is not demanded (candidate defect: aggregate_lazy_diff emits action copy without '
+                'source); flag bounded.C15_hist.CANDIDATE_DEFECT_COPY_WITHOUT_SOURCE')
     ck.bound('C15_key_universes', {k: [repr(x) for x in v[1]] for k, v in H.UNIVERSES.items()})
     ck.rule('C15-R: every history over the 18 operations up to the stated length, for every (key type, big_map kind/split); '
             'class = (key type, big_map kind, length, kinds of the first three operations)')
